@@ -18,7 +18,7 @@
     ([P := fun _ => false] leaves "no block has time 0").
     [ctx_unused r0 steps]: the service module never hands the service context of the oracle
     request [r0] to another request (context ids are hashes of a counter in the service module). *)
-From Irismod Require Import Random.Model Random.Spec Random.Check Random.Proofs Random.Sound.
+From Irismod Require Import Random.Model Random.Spec Random.Check Random.Proofs Random.Sound Random.Pass Random.PassAll.
 
 (** ** the value: a decimal in [0,1) with exactly 20 fractional digits
 
@@ -218,6 +218,20 @@ Theorem value_depends_only_on :
 Proof. exact same_inputs_same_value_lemma. Qed.
 Print Assumptions value_depends_only_on.
 
+(** several requests falling due at one height: all fulfilments of one block carry the same
+    header, and each value is computed from its OWN requester's address (and its own oracle
+    seed) - no number is shared between the requests of a block *)
+Theorem same_block_values_from_own_addresses :
+  forall (sha : hin -> Z) (P : Z -> bool) (steps : list step) (ev1 ev2 : event),
+    sane P [] steps -> In ev1 (events sha init steps) -> In ev2 (events sha init steps) ->
+    e_block ev1 = e_block ev2 ->
+    let t := e_time ev1 in let a := e_app ev1 in
+    e_time ev2 = t /\ e_app ev2 = a
+    /\ e_val ev1 = rand_val sha t a (snd (e_rid ev1)) (e_seed ev1)
+    /\ e_val ev2 = rand_val sha t a (snd (e_rid ev2)) (e_seed ev2).
+Proof. exact same_block_own_address_lemma. Qed.
+Print Assumptions same_block_values_from_own_addresses.
+
 (** a fulfilment's header is the header of the block it happens in *)
 Theorem fulfilment_carries_its_block_header :
   forall (sha : hin -> Z) (P : Z -> bool) (used : list Z) (s : state) (st : step) (ev : event),
@@ -254,14 +268,77 @@ Theorem model_views_ok :
 Proof. exact model_views_ok_lemma. Qed.
 Print Assumptions model_views_ok.
 
+(** ... and the whole of clause 9 - the tracker that follows every accepted request through the
+    proven automaton AND examines the hypotheses on the way (requester asking twice in a block,
+    block time 0, service context named twice) - never fires on the model's own trace, for EVERY
+    history, without any hypothesis: an alarm of clause 9 always means that the implementation
+    showed something the model does not. *)
+Theorem model_passes_life_cycle_check :
+  forall (sha : hin -> Z) (steps : list step), model_life_check sha init tinit steps = true.
+Proof. exact model_passes_life_cycle_check_lemma. Qed.
+Print Assumptions model_passes_life_cycle_check.
+
+(** ** the compressed case format loses nothing
+
+    The driver sends compressed cases ([Check.ccase]: unchanged queue / oracle views omitted,
+    reads as differences, well-formed value strings as their numerators); the check evaluates
+    [check_case] on [expand] of them.  Every sequence of observations has a compressed form that
+    expands back to exactly itself. *)
+Theorem compressed_cases_lossless :
+  forall (l : list (step * obs)), expand obs0 (compress obs0 l) = l.
+Proof. intros l. exact (expand_compress l obs0). Qed.
+Print Assumptions compressed_cases_lossless.
+
+(** ** the model passes the whole check
+
+    For every history of plain requests (no oracle seed: the service environment does not
+    matter) satisfying the hypotheses of the property - no block with time 0, no requester
+    asking twice in one block ([allP]: for all requesters) - the checker [check_case], i.e.
+    correspondence + clauses 1-8 (bookkeeping from outside) + clause 9 (proven life cycle with
+    its hypothesis tracking), fed the MODEL's own observations ([model_trace]), returns
+    (-1, -1, 0): no divergence, no violation.  So on such histories an alarm always means that
+    the implementation showed something the model does not.  The same holds for the compressed
+    form the driver sends.  (For oracle-seeded requests clause 9 is covered for every history
+    by [model_passes_life_cycle_check]; clauses 7-8 read the service module from outside and
+    are validated by the mutation self-test only.) *)
+Theorem model_passes_check :
+  forall (sha : hin -> Z) (steps : list step),
+    sane allP [] steps -> plain steps ->
+    check_from sha init pinit tinit (model_trace sha init tinit steps) 0 (-1) (-1) 0 false = (-1, -1, 0).
+Proof. exact model_passes_check_lemma. Qed.
+Print Assumptions model_passes_check.
+
+Theorem model_passes_compressed_check :
+  forall (tbl : list (hin * Z)) (steps : list step),
+    sane allP [] steps -> plain steps ->
+    check_ccase (tbl, compress obs0 (model_trace (table_sha tbl) init tinit steps)) = (-1, -1, 0).
+Proof.
+  intros tbl steps Hs Hp. unfold check_ccase, check_case. cbn [fst snd].
+  rewrite expand_compress. exact (model_passes_check_lemma (table_sha tbl) steps Hs Hp).
+Qed.
+Print Assumptions model_passes_compressed_check.
+
+(** the hypotheses of [model_passes_check] hold of a history with two requesters due at one
+    height, a requester asking again in a later block, and a far request *)
+Example plain_history_nonvacuous :
+  let steps := [Req 0 2 false true 100 None; Begin 1700000000 1 []; Req 1 1 false true 101 None;
+                Req 0 0 false true 102 None; Begin 1700000003 2 []; Calls []; Begin 1700000003 2 [];
+                Req 2 4611686018427387904 false true 103 None; Begin 1700000009 3 []] in
+  sane allP [] steps /\ plain steps
+  /\ length (events (fun _ => 0) init steps) = 3%nat.
+Proof.
+  cbv zeta. split; [simpl; intuition (try discriminate; try lia)|].
+  split; [simpl; intuition lia|]. vm_compute. reflexivity.
+Qed.
+
 (** ** the hypotheses are needed, and are satisfiable *)
 
 (** a toy hash (any function will do): distinct inputs, distinct "digests" *)
 Definition toy_sha (i : hin) : Z :=
   match i with
-  | HApp a => 1000003 * (a + 7)
-  | HAddr c => 2000003 * (c + 11)
-  | HSeed sd => 3000017 * (sd + 13)
+  | HApp a => 1000003000000000000007 * (a + 7)
+  | HAddr c => 2000003000000000000011 * (c + 11)
+  | HSeed sd => 3000017000000000000013 * (sd + 13)
   | HSum z => 7919 * z + 104729
   end.
 
@@ -315,7 +392,9 @@ Example c18_nonvacuous :
                           (enq init 1 (new_req init 1 101 true (Some 7))) Pending
                           (skipn 2 demo_pre ++ demo_req :: demo_post) = Fulfilled ev
                  /\ e_seed ev = Some 5 /\ e_block ev = 3)
-  /\ nth_begin (Z.to_nat 2) (skipn 1 demo_pre ++ demo_req :: demo_post) = Some (1700000003, 2).
+  /\ nth_begin (Z.to_nat 2) (skipn 1 demo_pre ++ demo_req :: demo_post) = Some (1700000003, 2)
+  /\ (exists ev1 ev2, filter (fun ev => e_block ev =? 4) (events toy_sha init steps) = [ev1; ev2]
+                      /\ snd (e_rid ev1) <> snd (e_rid ev2) /\ e_val ev1 <> e_val ev2).
 Proof.
   cbv zeta.
   split; [simpl; intuition (try discriminate; try lia)|].
@@ -326,5 +405,6 @@ Proof.
   split; [vm_compute; reflexivity|].
   split; [vm_compute; reflexivity|].
   split; [eexists; split; [vm_compute; reflexivity|]; split; reflexivity|].
-  vm_compute. reflexivity.
+  split; [vm_compute; reflexivity|].
+  eexists. eexists. split; [vm_compute; reflexivity|]. split; vm_compute; intros H; discriminate H.
 Qed.
